@@ -74,6 +74,8 @@ type tConn struct {
 	dialAt     time.Duration
 	maxInflight int
 	badLenSent bool
+	garbled    int    // frames received that are not DNS queries
+	wstream    []byte // client->server bytes not yet forming a complete frame
 	actLog     string // server actions taken on this connection, in order
 	openedFor  int // call on whose behalf the connection was dialed (-1 unknown)
 }
@@ -139,15 +141,18 @@ func (s *tsys) newConn() *tConn {
 		if s.opt.WriteFailNth > 0 && s.writes == s.opt.WriteFailNth {
 			return fk.ErrInjected
 		}
-		wire := wb
+		var wires [][]byte
 		if s.tcp {
-			if len(wb) < 2 {
-				return nil
-			}
-			wire = wb[2:]
+			// independent framer on the client's byte stream
+			cn.wstream = append(cn.wstream, wb...)
+			wires, cn.wstream = fk.Unframe(cn.wstream)
+		} else {
+			wires = [][]byte{wb}
 		}
-		ci := s.callOf(wire)
-		s.xmits = append(s.xmits, xmit{call: ci, conn: cn.idx, at: vs.Elapsed(), wire: wire})
+		for _, wire := range wires {
+			ci := s.callOf(wire)
+			s.xmits = append(s.xmits, xmit{call: ci, conn: cn.idx, at: vs.Elapsed(), wire: wire})
+		}
 		// unanswered queries carried by this connection right now
 		seen := map[int]bool{}
 		for _, x := range s.xmits {
@@ -220,6 +225,10 @@ func (s *tsys) serve(cn *tConn) {
 				msgs = [][]byte{rec}
 			}
 			for _, m := range msgs {
+				if fk.QName(m) == "" {
+					cn.garbled++ // not a DNS query at all (mis-framed stream): a real server would drop it
+					continue
+				}
 				w := &wireQ{wire: m, call: s.callOf(m), at: vs.Elapsed()}
 				cn.got = append(cn.got, w)
 				cn.pending = append(cn.pending, w)
